@@ -138,6 +138,15 @@ fn timeout_of(plan: &Plan) -> Option<u64> {
 }
 
 impl<'a> World<'a> {
+    /// the PoK verification equation, evaluated by the reference arithmetic with the tree's own tags
+    fn ref_accepts(&mut self, proof: &[u8], pk: &[u8], msg: &[u8], challenge: &[u8]) -> bool {
+        let Some(f) = PokFields::parse(proof, self.g.sig_len()) else { return false };
+        let Some(dsts) = self.rec.call(self.lib, self.g, Op::Dsts, &[]).ok() else { return false };
+        let (Some(u), Some(v), Some(pkp), Some(y)) = (Pt::from_bytes(&f.u), Pt::from_bytes(&f.v), Pt::from_bytes(pk), refimpl::scalar_from_be(challenge)) else { return false };
+        if f.tag > 2 { return false; }
+        let b = refimpl::Bls::draft(sig_grp(self.g));
+        refimpl::pok_verify(&b, &u, &v, &pkp, &y, msg, &dsts[f.tag as usize])
+    }
     fn tag(&self) -> u8 {
         self.scheme
     }
@@ -363,9 +372,16 @@ impl<'a> App for World<'a> {
                             sim.stats.fault("byz-relay");
                             let out = self.rec.call(self.lib, self.g, Op::PokVerify, &[&pb, &pk, &pm, c2.as_deref().unwrap_or(&ch)]);
                             self.rec.case(&[12, self.g as u64, self.scheme as u64, mode as u64], true);
-                            // decoding may already refuse (e.g. relabelled tag keeps decoding; swapped points decode) — any non-accept is fine
                             let _ = aug_plain;
-                            self.rec.expect("C10", "altered-proof-rejected", !out.is_ok(), || format!("{} scheme={} | altered interactive proof accepted", label, sch));
+                            // independent decision: the verification equation evaluated by `ref` under the tree's own tag.
+                            // An algebraically related tuple that IS valid (e.g. u and v swapped under the key 1, whose
+                            // public key is the generator) is not required to be rejected.
+                            let related_valid = self.ref_accepts(&pb, &pk, &pm, c2.as_deref().unwrap_or(&ch));
+                            if related_valid {
+                                self.rec.probe("altered-tuple-valid-by-the-equation");
+                            } else {
+                                self.rec.expect("C10", "altered-proof-rejected", !out.is_ok(), || format!("{} scheme={} | altered interactive proof accepted", label, sch));
+                            }
                             self.rec.expect("C10", "verify-never-aborts", !out.is_panic(), || format!("abort {} | {:?}", label, out));
                         }
                     }
